@@ -1,5 +1,6 @@
 import Tapeverif.Lemmas.Greedy
 import Tapeverif.Model.SigPure
+import Tapeverif.Lemmas.MsRefine
 /-! # C03 — multisig passes only with m valid signatures from m different listed keys
 
 `SigPure.multisig` is the specification of OP_CHECK_MULTISIG on the popped signature and key
@@ -124,5 +125,54 @@ theorem multisig_perm (sigs keys sigs' keys' : List Bytes)
       exact ⟨m2, hp1.trans hp2, hf2⟩
   exact multisig_complete H C mis cache allowed sigs' keys' ms' hwf' huniq (hs.nodup_iff.mp hnd) hf'
     ((hp.symm.subperm.trans hsub).trans hk.subperm)
+
+/-! ### the instruction computes the specification -/
+section instruction
+open Instr
+
+/-- **`OP_CHECK_MULTISIG allowed m n` computes `SigPure.multisig`** (no signature-extension plugin):
+    with the `n` keys on top of the `m` signatures, the instruction ends with exactly the
+    specification's Boolean on the remaining stack, or with exactly its error. The C03 theorems
+    about `SigPure.multisig` (greedy matching, soundness, completeness, order independence) are
+    therefore statements about the instruction. -/
+theorem checkMultisig_instruction (cfg : Cfg) (hno : cfg.sigExts = []) (T : UInt8 → Op) (k : Op) (fr : Frame) (sh : Shared)
+    (allowed m n : Nat) (rest : Bytes) (keys sigs st : List Bytes) (r : Res)
+    (ha : allowed < 256) (hm : m < 256) (hn : n < 256)
+    (hrest : fr.rest = UInt8.ofNat allowed :: UInt8.ofNat m :: UInt8.ofNat n :: rest)
+    (hkl : keys.length = n) (hsl : sigs.length = m) (hs : sh.stack = keys ++ (sigs ++ st))
+    (hsz : ∀ x ∈ keys ++ sigs, x.length ≤ cfg.lim.maxItemSize) (h1 : 1 ≤ cfg.lim.maxItemSize)
+    (hroom : st.length + 2 ≤ cfg.lim.maxItems)
+    (h : match SigPure.multisig H C cfg.lim.maxItemSize sh.cache allowed sigs keys with
+         | .ok b => Steps T cfg.lim k { fr with rest := rest } { sh with stack := boolBytes b :: st } r
+         | .error e => r = .err (.user e) { sh with stack := st }) :
+    Steps T cfg.lim (opCheckMultisig H C cfg k) fr sh r := by
+  unfold opCheckMultisig sigExt
+  rw [hno]
+  simp only [runSigExts]
+  unfold readU1
+  nstep Steps.read (by simp [hrest]) ?_
+  simp only [hrest, List.take_succ_cons, List.take_zero, List.drop_succ_cons, List.drop_zero, u1_of_nat _ ha]
+  nstep Steps.read (by simp) ?_
+  simp only [List.take_succ_cons, List.take_zero, List.drop_succ_cons, List.drop_zero, u1_of_nat _ hm]
+  nstep Steps.read (by simp) ?_
+  simp only [List.take_succ_cons, List.take_zero, List.drop_succ_cons, List.drop_zero, u1_of_nat _ hn]
+  refine popN_steps _ n _ sh keys (sigs ++ st) r hkl hs ?_
+  refine popN_steps _ m _ _ sigs st r hsl rfl ?_
+  dsimp only
+  refine msLoop_steps H C allowed _ sigs keys [] _ _ r (fun s hs' => hsz s (by simp [hs'])) (fun v hv => hsz v (by simp [hv])) h1
+    (by simpa using hroom) ?_
+  dsimp only
+  simp only [SigPure.multisig, bind, Except.bind] at h
+  cases hl : SigPure.multisigLoop H C cfg.lim.maxItemSize sh.cache allowed sigs keys [] with
+  | error e => rw [hl] at h; exact h
+  | ok c =>
+    rw [hl] at h
+    simp only [pure, Except.pure] at h ⊢
+    unfold pushBool
+    nstep Steps.push (by cases (decide (c.length = sigs.length)) <;> simp [boolBytes] <;> omega) (by simp; omega) ?_
+    exact h
+
+
+end instruction
 
 end TV.C03
